@@ -772,8 +772,9 @@ class Schema:
                 out.append(f"index {n}: {self.indexes.get(n)} vs {other.indexes.get(n)}")
         return "; ".join(out) or "equal"
 
-    def apply(self, st: dict) -> str | None:
-        """Apply one DDL statement; returns the SQLite error it would meet, or None."""
+    def apply(self, st: dict, nonempty: bool = True) -> str | None:
+        """Apply one DDL statement; returns the SQLite error it would meet, or None.
+        ``nonempty``: the altered table may hold rows (a user database does)."""
         k = st["kind"]
         if k == "create_table":
             if st["name"] in self.tables:
@@ -799,7 +800,7 @@ class Schema:
                 return "Cannot add a PRIMARY KEY column"
             if c.unique:
                 return "Cannot add a UNIQUE column"
-            if c.notnull and (not c.has_default or c.default == ("lit", None)):
+            if nonempty and c.notnull and (not c.has_default or c.default == ("lit", None)):
                 return "Cannot add a NOT NULL column with default value NULL"
             t["cols"].append(c)
             return None
@@ -892,6 +893,7 @@ class MiniDB:
         self.user_version = 0
         self._snap: tuple | None = None
         self.log: list[str] = []  # kinds of state-changing statements executed
+        self.assume_rows = False  # DDL is judged as if every table held user rows
 
     # ------------------------------------------------------------------ state
     def snapshot(self) -> tuple:
@@ -919,7 +921,7 @@ class MiniDB:
         k = st["kind"]
         self.rowcount = -1
         if k in DDL_KINDS:
-            err = self.schema.apply(st)
+            err = self.schema.apply(st, nonempty=self.assume_rows or bool(self.data.get(st.get("table") or "")))
             if err:
                 raise Raised("OperationalError", err)
             if k == "create_table":
@@ -963,6 +965,14 @@ class MiniDB:
             if st["name"] == "journal_mode":
                 return [((st["value"] or "wal").lower(),)]
             return []
+        if k in ("select", "insert", "delete", "update"):
+            for t, c in column_refs(st):
+                if t is None or t == "sqlite_master":
+                    continue
+                if t not in self.schema.tables:
+                    raise Raised("OperationalError", f"no such table: {t}")
+                if c != "*table*" and c not in self.schema.columns(t):
+                    raise Raised("OperationalError", f"no such column: {c}")
         if k == "select":
             return self._select(st, params, None)
         if k == "insert":
@@ -1338,3 +1348,608 @@ class FakeConn(ModelObject):
 
     def close(self) -> None:
         self.closed = True
+
+
+# =====================================================================================================
+# Part B — XInterp: the framework's AST interpreter extended with objects, methods, with/await/yield
+# =====================================================================================================
+
+from ..absint import _BUILTINS, _SAFE_METHODS  # noqa: E402  (private tables of the base interpreter)
+
+
+class Ext:
+    """An opaque name that lives outside the repository (asyncio, datetime, sqlite3 ...)."""
+
+    def __init__(self, dotted_name: str):
+        self.dotted = dotted_name
+
+    def __repr__(self) -> str:
+        return f"<ext {self.dotted}>"
+
+    def __eq__(self, o: object) -> bool:
+        return isinstance(o, Ext) and o.dotted == self.dotted
+
+    def __hash__(self) -> int:
+        return hash(self.dotted)
+
+
+class FnRef:
+    def __init__(self, node: ast.AST, module: Module, closure: dict | None = None):
+        self.node, self.module, self.closure = node, module, closure
+
+
+class BoundMethod:
+    def __init__(self, recv: Any, fn: FnRef):
+        self.recv, self.fn = recv, fn
+
+
+class ClassRef:
+    def __init__(self, ref: str, module: Module, node: ast.ClassDef):
+        self.ref, self.module, self.node = ref, module, node
+        self.name = node.name
+
+    def __repr__(self) -> str:
+        return f"<class {self.ref}>"
+
+
+class FakeDT(ModelObject):
+    """A timestamp token: only identity/label matter to the rules."""
+
+    _api = frozenset({"isoformat", "timestamp"})
+
+    def __init__(self, label: str):
+        self.label = label
+
+    def isoformat(self) -> str:
+        return self.label
+
+    def __eq__(self, o: object) -> bool:
+        return isinstance(o, FakeDT) and o.label == self.label
+
+    def __hash__(self) -> int:
+        return hash(self.label)
+
+    def __repr__(self) -> str:
+        return f"<dt {self.label}>"
+
+    def __bool__(self) -> bool:
+        return True
+
+
+class FakeLogger(ModelObject):
+    _api = frozenset({"debug", "info", "warning", "error", "exception", "critical", "log"})
+
+    def _noop(self, *a: Any, **k: Any) -> None:
+        return None
+
+    debug = info = warning = error = exception = critical = log = _noop
+
+
+class Suppress(ModelObject):
+    def __init__(self, *names: Any):
+        self.names = {_exc_name(n) for n in names}
+
+    def _enter(self, interp: "XInterp", is_async: bool) -> Any:
+        return None
+
+    def _exit(self, interp: "XInterp", exc: Raised | None) -> bool:
+        return exc is not None and (exc.name in self.names or "Exception" in self.names or "BaseException" in self.names)
+
+
+def _exc_name(n: Any) -> str:
+    if isinstance(n, Ext):
+        return n.dotted.rsplit(".", 1)[-1]
+    if isinstance(n, ClassRef):
+        return n.name
+    return str(n)
+
+
+_DEQUE_API = {"append", "appendleft", "popleft", "pop", "remove", "clear", "extend", "count", "index"}
+_EXTRA_STR = {"splitlines", "title", "isspace", "zfill", "encode", "casefold", "isidentifier"}
+_RE_API = {"search", "match", "fullmatch", "group", "groups", "findall", "start", "end", "span"}
+
+
+class World:
+    """State shared by every interpreter instance of one model run."""
+
+    def __init__(self, repo: Any, max_steps: int = 2_000_000):
+        self.repo = repo
+        self.max_steps = max_steps
+        self.steps = 0
+        self.classes: dict[str, ClassRef] = {}
+        self.method_hooks: dict[tuple[str, str], Callable] = {}
+        self.class_hooks: dict[tuple[str, str], Callable] = {}
+        self.ctor_hooks: dict[str, Callable] = {}
+        self.ext_values: dict[str, Any] = {}
+        self.ext_calls: dict[str, Callable] = {
+            "re.compile": re.compile,
+            "logging.getLogger": lambda *a, **k: FakeLogger(),
+            "collections.deque": deque,
+            "weakref.WeakValueDictionary": dict,
+            "contextlib.suppress": Suppress,
+            "time.sleep": lambda *a, **k: None,
+            "datetime.datetime.now": lambda *a, **k: FakeDT("NOW"),
+            "datetime.datetime.fromisoformat": lambda s: FakeDT(s),
+        }
+        self._gcache: dict[tuple[str, str], Any] = {}
+        self._enum: dict[tuple[str, str], Record] = {}
+        self.yield_sink: Callable[[Any], Any] | None = None
+        self.await_hook: Callable[[Any], Any] | None = None
+        self.trace_calls: list[str] = []
+
+    def interp(self, module: Module, env: dict | None = None) -> "XInterp":
+        return XInterp(self, module, env)
+
+    def call(self, ref: str, *args: Any, **kw: Any) -> Any:
+        """Call a module-level function ``module:qual`` of the repo (AST interpretation)."""
+        m, fn = self.repo.func(ref)
+        return self.interp(m).call_fn(FnRef(fn, m), None, list(args), kw)
+
+    def call_method(self, recv: Record, name: str, *args: Any, **kw: Any) -> Any:
+        it = XInterp(self, self.classes[recv._cls].module)
+        f = it.getattr_(recv, name)
+        return it.apply(f, list(args), kw)
+
+    def new(self, ref: str, *args: Any, **kw: Any) -> Record:
+        m, c = self.repo.cls(ref)
+        return self.interp(m).construct(ClassRef(ref, m, c), list(args), kw)
+
+
+def _is_generator(fn: ast.AST) -> bool:
+    return any(isinstance(n, (ast.Yield, ast.YieldFrom)) for n in walk_shallow(fn))
+
+
+def _decorators(fn: ast.AST) -> set[str]:
+    return {(dotted(d.func if isinstance(d, ast.Call) else d) or "").rsplit(".", 1)[-1] for d in getattr(fn, "decorator_list", [])}
+
+
+class XInterp(Interp):
+    def __init__(self, world: World, module: Module, env: dict | None = None):
+        super().__init__(env, {}, world.max_steps)
+        self.world = world
+        self.module = module
+
+    # ------------------------------------------------------------------ budget shared through the world
+    def eval(self, e: ast.AST, env: dict) -> Any:
+        self.world.steps += 1
+        if self.world.steps > self.world.max_steps:
+            raise Unsupported("step budget of the model run exceeded")
+        m = getattr(self, "e_" + type(e).__name__, None)
+        if m is None:
+            raise Unsupported(f"expression {type(e).__name__}: {ast.unparse(e)[:60]}")
+        return m(e, env)
+
+    # ------------------------------------------------------------------ names
+    def e_Name(self, e: ast.Name, env: dict) -> Any:
+        if e.id in env:
+            return env[e.id]
+        if e.id in _BUILTINS:
+            return _BUILTINS[e.id] if e.id != "isinstance" else self._isinstance
+        return self.global_lookup(self.module, e.id)
+
+    def global_lookup(self, m: Module, name: str) -> Any:
+        key = (m.rel, name)
+        w = self.world
+        if key in w._gcache:
+            return w._gcache[key]
+        v = self._global_lookup(m, name)
+        w._gcache[key] = v
+        return v
+
+    def _global_lookup(self, m: Module, name: str) -> Any:
+        w = self.world
+        if name == "__name__":
+            return m.name
+        if name in m.functions:
+            return FnRef(m.functions[name], m)
+        if name in m.classes:
+            return self._classref(f"{m.name}:{name}", m, m.classes[name])
+        # module-level assignment (also inside module-level try/if blocks)
+        found = None
+        for st in ast.walk(m.tree):
+            if not isinstance(st, (ast.Assign, ast.AnnAssign)) or enclosing_function(st) is not None or any(isinstance(p, ast.ClassDef) for p in _anc(st)):
+                continue
+            if isinstance(st, ast.Assign) and any(isinstance(t, ast.Name) and t.id == name for t in st.targets):
+                found = st.value
+            elif isinstance(st, ast.AnnAssign) and isinstance(st.target, ast.Name) and st.target.id == name and st.value is not None:
+                found = st.value
+        if found is not None:
+            return XInterp(w, m).eval(found, {})
+        if name in m.imports:
+            r = w.repo.resolve_dotted(m, name)
+            if ":" in r:
+                modname, _, qual = r.partition(":")
+                mod = w.repo.modules.get(modname)
+                if mod is not None:
+                    if qual in mod.functions:
+                        return FnRef(mod.functions[qual], mod)
+                    if qual in mod.classes:
+                        return self._classref(r, mod, mod.classes[qual])
+                    if "." not in qual:
+                        return self.global_lookup(mod, qual)
+            target = m.imports[name]
+            if target in w.ext_values:
+                return w.ext_values[target]
+            return Ext(target)
+        b = getattr(builtins, name, None)
+        if isinstance(b, type) and issubclass(b, BaseException):
+            return name
+        raise Unsupported(f"unbound name `{name}` in {m.rel}")
+
+    def _classref(self, ref: str, m: Module, node: ast.ClassDef) -> ClassRef:
+        c = self.world.classes.get(node.name)
+        if c is None or c.node is not node:
+            c = ClassRef(ref, m, node)
+            self.world.classes[node.name] = c
+        return c
+
+    # ------------------------------------------------------------------ attributes
+    def e_Attribute(self, e: ast.Attribute, env: dict) -> Any:
+        return self.getattr_(self.eval(e.value, env), e.attr)
+
+    def getattr_(self, obj: Any, attr: str) -> Any:
+        w = self.world
+        if isinstance(obj, Record):
+            if attr in obj.__dict__:
+                return obj.__dict__[attr]
+            h = w.method_hooks.get((obj._cls, attr))
+            if h is not None:
+                return lambda *a, **k: h(obj, *a, **k)
+            c = w.classes.get(obj._cls)
+            if c is not None:
+                for cr in self._mro(c):
+                    h = w.method_hooks.get((cr.name, attr))
+                    if h is not None:
+                        return lambda *a, **k: h(obj, *a, **k)
+                    for n in cr.node.body:
+                        if isinstance(n, FuncNode) and n.name == attr:
+                            decs = _decorators(n)
+                            if "staticmethod" in decs:
+                                return FnRef(n, cr.module)
+                            if "classmethod" in decs:
+                                return BoundMethod(cr, FnRef(n, cr.module))
+                            if "property" in decs or "cached_property" in decs:
+                                return self.call_fn(FnRef(n, cr.module), obj, [], {})
+                            return BoundMethod(obj, FnRef(n, cr.module))
+                    v = self._class_attr(cr, attr)
+                    if v is not _MISSING:
+                        return v
+            raise Unsupported(f"object {obj._cls} has no attribute `{attr}` known to the model")
+        if isinstance(obj, ModelObject):
+            if attr in obj._api:
+                return getattr(obj, attr)
+            raise Unsupported(f"model object {type(obj).__name__} has no attribute `{attr}`")
+        if isinstance(obj, Ext):
+            d = f"{obj.dotted}.{attr}"
+            return w.ext_values[d] if d in w.ext_values else Ext(d)
+        if isinstance(obj, ClassRef):
+            if attr in ("__name__", "__qualname__"):
+                return obj.name
+            for cr in self._mro(obj):
+                h = w.class_hooks.get((cr.name, attr))
+                if h is not None:
+                    return h
+                for n in cr.node.body:
+                    if isinstance(n, FuncNode) and n.name == attr:
+                        if "classmethod" in _decorators(n):
+                            return BoundMethod(obj, FnRef(n, cr.module))
+                        return FnRef(n, cr.module)
+                v = self._class_attr(cr, attr, enum_owner=obj)
+                if v is not _MISSING:
+                    return v
+            raise Unsupported(f"class {obj.name} has no attribute `{attr}` known to the model")
+        if isinstance(obj, deque):
+            if attr in _DEQUE_API:
+                return getattr(obj, attr)
+            raise Unsupported(f"deque attribute {attr}")
+        if isinstance(obj, (re.Pattern, re.Match)):
+            if attr in _RE_API:
+                return getattr(obj, attr)
+            raise Unsupported(f"re attribute {attr}")
+        if isinstance(obj, (str, list, set, frozenset, dict, tuple)):
+            allowed = _SAFE_METHODS.get(type(obj), set())
+            if attr in allowed or (isinstance(obj, str) and attr in _EXTRA_STR):
+                return getattr(obj, attr)
+        raise Unsupported(f"attribute `{attr}` of {type(obj).__name__}")
+
+    def _mro(self, c: ClassRef) -> list[ClassRef]:
+        out = [c]
+        for r in self.world.repo.mro_names(c.ref):
+            if ":" in r and self.world.repo._has_cls(r):
+                mm, cc = self.world.repo.cls(r)
+                out.append(self._classref(r, mm, cc))
+        return out
+
+    def _is_enum(self, c: ClassRef) -> bool:
+        names = [b.rsplit(".", 1)[-1].rsplit(":", 1)[-1] for b in self.world.repo.mro_names(c.ref)]
+        return any(n in ("Enum", "IntEnum", "StrEnum") for n in names)
+
+    def _class_attr(self, cr: ClassRef, attr: str, enum_owner: ClassRef | None = None) -> Any:
+        for n in cr.node.body:
+            val = None
+            if isinstance(n, ast.Assign) and any(isinstance(t, ast.Name) and t.id == attr for t in n.targets):
+                val = n.value
+            elif isinstance(n, ast.AnnAssign) and isinstance(n.target, ast.Name) and n.target.id == attr and n.value is not None:
+                val = n.value
+            if val is not None:
+                if self._is_enum(cr):
+                    key = (cr.ref, attr)
+                    if key not in self.world._enum:
+                        self.world._enum[key] = Record(cr.name, name=attr, value=XInterp(self.world, cr.module).eval(val, {}))
+                    return self.world._enum[key]
+                return XInterp(self.world, cr.module).eval(val, {})
+        return _MISSING
+
+    # ------------------------------------------------------------------ isinstance
+    def _isinstance(self, obj: Any, cls: Any) -> bool:
+        names = cls if isinstance(cls, tuple) else (cls,)
+        for n in names:
+            if isinstance(n, type):
+                if isinstance(obj, n) and not isinstance(obj, (Record, ModelObject)):
+                    return True
+                continue
+            nm = _exc_name(n)
+            if isinstance(obj, Record):
+                if nm == obj._cls:
+                    return True
+                c = self.world.classes.get(obj._cls)
+                if c is not None and nm in [x.name for x in self._mro(c)]:
+                    return True
+                if nm in getattr(obj, "_bases", ()):
+                    return True
+            elif isinstance(obj, FakeDT) and nm == "datetime":
+                return True
+            elif isinstance(obj, Raised) and (nm == obj.name or nm in ("Exception", "BaseException")):
+                return True
+        return False
+
+    # ------------------------------------------------------------------ calls
+    def apply(self, f: Any, args: list, kw: dict) -> Any:
+        if isinstance(f, FnRef):
+            return self.call_fn(f, None, args, kw)
+        if isinstance(f, BoundMethod):
+            return self.call_fn(f.fn, f.recv, args, kw)
+        if isinstance(f, ClassRef):
+            return self.construct(f, args, kw)
+        if isinstance(f, Ext):
+            h = self.world.ext_calls.get(f.dotted)
+            if h is None:
+                raise Unsupported(f"call of external `{f.dotted}` has no model")
+            return h(*args, **kw)
+        if isinstance(f, tuple) and f and f[0] == "__fn__":
+            return self.call_fn(FnRef(f[1], self.module, f[2]), None, args, kw)
+        if f is self._isinstance or (getattr(f, "__func__", None) is XInterp._isinstance):
+            return self._isinstance(*args)
+        return super().apply(f, args, kw)
+
+    def call_fn(self, fr: FnRef, recv: Any, args: list, kw: dict, stream: bool = False) -> Any:
+        """``stream``: the callee is a generator whose yields go to the world's sink as they happen
+        (the rule drives it); otherwise a generator is run eagerly and its yields returned as a list."""
+        fn = fr.node
+        a = fn.args
+        if a.vararg is not None or a.kwarg is not None:
+            raise Unsupported(f"*args/**kwargs in `{fn.name}`")
+        pos = [p.arg for p in a.posonlyargs + a.args]
+        env: dict[str, Any] = fr.closure if fr.closure is not None else {}
+        env = dict(env)
+        actual = list(args)
+        if recv is not None:
+            actual = [recv] + actual
+        if len(actual) > len(pos):
+            raise Raised("TypeError", f"{fn.name}() takes {len(pos)} positional arguments but {len(actual)} were given")
+        bound = dict(zip(pos, actual))
+        for k, v in kw.items():
+            if k in bound:
+                raise Raised("TypeError", f"{fn.name}() got multiple values for argument {k}")
+            if k not in pos and k not in [p.arg for p in a.kwonlyargs]:
+                raise Raised("TypeError", f"{fn.name}() got an unexpected keyword argument {k}")
+            bound[k] = v
+        defaults = dict(zip(pos[len(pos) - len(a.defaults):], a.defaults)) if a.defaults else {}
+        for p, d in zip(a.kwonlyargs, a.kw_defaults):
+            if d is not None:
+                defaults[p.arg] = d
+        sub = XInterp(self.world, fr.module)
+        for p in pos + [p.arg for p in a.kwonlyargs]:
+            if p not in bound:
+                if p not in defaults:
+                    raise Raised("TypeError", f"{fn.name}() missing argument {p}")
+                bound[p] = sub.eval(defaults[p], env)
+        env.update(bound)
+        self.world.trace_calls.append(fn.name)
+        eager = _is_generator(fn) and not stream
+        sink_saved = self.world.yield_sink
+        collected: list = []
+        if eager:
+            self.world.yield_sink = collected.append
+        try:
+            sub.exec_block(fn.body, env)
+        except _Return as r:
+            return collected if eager else r.v
+        finally:
+            self.world.yield_sink = sink_saved
+        return collected if eager else None
+
+    def construct(self, c: ClassRef, args: list, kw: dict) -> Any:
+        w = self.world
+        c = self._classref(c.ref, c.module, c.node)
+        h = w.ctor_hooks.get(c.name)
+        if h is not None:
+            return h(*args, **kw)
+        mro = self._mro(c)
+        for cr in mro:
+            for n in cr.node.body:
+                if isinstance(n, FuncNode) and n.name == "__init__":
+                    rec = Record(c.name)
+                    self.call_fn(FnRef(n, cr.module), rec, args, kw)
+                    return rec
+        fields: list[tuple[str, ast.AST | None, Module]] = []
+        for cr in reversed(mro):
+            for n in cr.node.body:
+                if isinstance(n, ast.AnnAssign) and isinstance(n.target, ast.Name):
+                    ann = ast.unparse(n.annotation)
+                    if ann.startswith("ClassVar"):
+                        continue
+                    fields = [f for f in fields if f[0] != n.target.id] + [(n.target.id, n.value, cr.module)]
+        if not fields and (args or kw):
+            raise Unsupported(f"construction of `{c.name}` (no declared fields)")
+        names = [f[0] for f in fields]
+        if len(args) > len(names):
+            raise Raised("TypeError", f"{c.name}() takes {len(names)} positional arguments")
+        vals = dict(zip(names, args))
+        for k, v in kw.items():
+            if k not in names:
+                raise Raised("TypeError", f"{c.name}() got an unexpected keyword argument {k}")
+            vals[k] = v
+        for name, default, mod in fields:
+            if name not in vals:
+                if default is None:
+                    raise Raised("TypeError", f"{c.name}() missing field {name}")
+                vals[name] = XInterp(w, mod).eval(default, {})
+        return Record(c.name, **vals)
+
+    # ------------------------------------------------------------------ await / yield
+    def e_Await(self, e: ast.Await, env: dict) -> Any:
+        v = self.eval(e.value, env)
+        if self.world.await_hook is not None:
+            return self.world.await_hook(v)
+        return v
+
+    def e_Yield(self, e: ast.Yield, env: dict) -> Any:
+        v = self.eval(e.value, env) if e.value is not None else None
+        if self.world.yield_sink is None:
+            raise Unsupported("yield outside a modelled generator")
+        return self.world.yield_sink(v)
+
+    def e_NamedExpr(self, e: ast.NamedExpr, env: dict) -> Any:
+        v = self.eval(e.value, env)
+        self.assign(e.target, v, env)
+        return v
+
+    # ------------------------------------------------------------------ statements
+    def exec(self, s: ast.stmt, env: dict) -> None:
+        if isinstance(s, (ast.With, ast.AsyncWith)):
+            return self._with(s, env)
+        if isinstance(s, ast.Delete):
+            for t in s.targets:
+                if isinstance(t, ast.Subscript):
+                    obj = self.eval(t.value, env)
+                    k = self.eval(t.slice, env)
+                    try:
+                        del obj[k]
+                    except KeyError as x:
+                        raise Raised("KeyError", str(x))
+                    except IndexError as x:
+                        raise Raised("IndexError", str(x))
+                elif isinstance(t, ast.Name):
+                    env.pop(t.id, None)
+                elif isinstance(t, ast.Attribute):
+                    obj = self.eval(t.value, env)
+                    if not isinstance(obj, Record):
+                        raise Unsupported("del of attribute on a non-record")
+                    obj.__dict__.pop(t.attr, None)
+                else:
+                    raise Unsupported("del target")
+            return None
+        if isinstance(s, ast.AsyncFor):
+            f = ast.For(target=s.target, iter=s.iter, body=s.body, orelse=s.orelse)
+            ast.copy_location(f, s)
+            return super().exec(f, env)
+        if isinstance(s, ast.AsyncFunctionDef):
+            env[s.name] = ("__fn__", s, env)
+            return None
+        if isinstance(s, ast.Raise) and s.exc is not None:
+            # `raise SomeError(...)`: keep the class name; arguments are evaluated for effects only when simple
+            e = s.exc.func if isinstance(s.exc, ast.Call) else s.exc
+            raise Raised(ast.unparse(e).split(".")[-1], ast.unparse(s.exc)[:80])
+        if isinstance(s, ast.Raise) and s.exc is None and "__exc__" in env:
+            raise env["__exc__"]
+        if isinstance(s, ast.Try):
+            return self._try(s, env)
+        return super().exec(s, env)
+
+    def _try(self, s: ast.Try, env: dict) -> None:
+        try:
+            try:
+                self.exec_block(s.body, env)
+            except Raised as r:
+                for h in s.handlers:
+                    names = []
+                    if h.type is not None:
+                        for e in h.type.elts if isinstance(h.type, ast.Tuple) else [h.type]:
+                            names.append(ast.unparse(e).split(".")[-1])
+                    if h.type is None or r.name in names or "Exception" in names or "BaseException" in names or _exc_sub(r.name, names):
+                        if h.name:
+                            env[h.name] = r
+                        saved = env.get("__exc__")
+                        env["__exc__"] = r
+                        try:
+                            self.exec_block(h.body, env)
+                        finally:
+                            if saved is None:
+                                env.pop("__exc__", None)
+                            else:
+                                env["__exc__"] = saved
+                        break
+                else:
+                    raise
+            else:
+                self.exec_block(s.orelse, env)
+        finally:
+            self.exec_block(s.finalbody, env)
+
+    def _with(self, s: ast.AST, env: dict) -> None:
+        is_async = isinstance(s, ast.AsyncWith)
+        cms = []
+        for item in s.items:
+            cm = self.eval(item.context_expr, env)
+            if isinstance(cm, ModelObject) and hasattr(cm, "_enter"):
+                val = cm._enter(self, is_async)
+            elif isinstance(cm, ModelObject):
+                val = cm
+            else:
+                raise Unsupported(f"context manager `{ast.unparse(item.context_expr)[:50]}` has no model")
+            cms.append(cm)
+            if item.optional_vars is not None:
+                self.assign(item.optional_vars, val, env)
+        try:
+            self.exec_block(s.body, env)
+        except Raised as r:
+            swallowed = False
+            for cm in reversed(cms):
+                if hasattr(cm, "_exit") and cm._exit(self, None if swallowed else r):
+                    swallowed = True
+            if not swallowed:
+                raise
+        except BaseException:
+            for cm in reversed(cms):
+                if hasattr(cm, "_exit"):
+                    cm._exit(self, None)
+            raise
+        else:
+            for cm in reversed(cms):
+                if hasattr(cm, "_exit"):
+                    cm._exit(self, None)
+
+
+_MISSING = object()
+
+_EXC_PARENTS = {
+    "TimeoutError": {"OSError"}, "KeyError": {"LookupError"}, "IndexError": {"LookupError"},
+    "OperationalError": {"DatabaseError", "Error"}, "IntegrityError": {"DatabaseError", "Error"}, "ProgrammingError": {"DatabaseError", "Error"},
+    "JSONDecodeError": {"ValueError"}, "OverflowError": {"ArithmeticError"}, "ZeroDivisionError": {"ArithmeticError"},
+}
+
+
+def _exc_sub(name: str, handler_names: list[str]) -> bool:
+    return bool(_EXC_PARENTS.get(name, set()) & set(handler_names))
+
+
+def _anc(node: ast.AST):
+    p = parent(node)
+    while p is not None:
+        yield p
+        p = parent(p)
+
+
+def model_unsupported(rule: str, what: str, e: Exception) -> AnchorError:
+    return AnchorError(f"{rule}: {what} uses a construct the model does not interpret ({e}); the rule cannot decide")
